@@ -83,6 +83,14 @@ func LaxPolygonFromPolygon(p *Polygon) *LaxPolygon {
 		} else {
 			spans[i] = make([]Point, len(loop.vertices))
 			copy(spans[i], loop.vertices)
+			// Polygon and LaxPolygon holes are oriented oppositely (a LaxPolygon's
+			// interior is on the left of every loop), so loops that are holes
+			// are reversed.
+			if loop.IsHole() {
+				for a, b := 0, len(spans[i])-1; a < b; a, b = a+1, b-1 {
+					spans[i][a], spans[i][b] = spans[i][b], spans[i][a]
+				}
+			}
 		}
 	}
 	return LaxPolygonFromPoints(spans)
